@@ -1167,6 +1167,115 @@ func concFlushQueued(maxpend int, flushop bool, tk int) string {
 	return s.finish("flushq", flushed)
 }
 
+// kind "vertag": a Tversion sent with an ordinary tag is a request like any other: it is answered, with its tag
+func concVersionTag(maxpend int) string {
+	s := newConcSession(maxpend, false)
+	s.setup()
+	s.send(mkFrame(&gmsg{kind: go9p.Tversion, a: 8192, s1: []byte("9P2000.u")}, false, 77))
+	s.waitReplies(3, time.Second)
+	got := false
+	for _, f := range s.conn.frames() {
+		if uint16(f[5])|uint16(f[6])<<8 == 77 && f[4] == go9p.Rversion {
+			got = true
+		}
+	}
+	if !got {
+		s.note("C03.request_never_answered_tversion_with_ordinary_tag|C12.tversion_not_answered")
+	}
+	return s.finish("vertag", map[uint16]bool{})
+}
+
+// kind "flushgroup1": a Tflush that names a tag shared by several requests: A (tag t) executes, B (tag t) waits
+// behind it, Tflush(t) cancels B; a request C sent under tag t afterwards must still wait for A (one at a time,
+// in arrival order). (The other interaction - a Tflush chained onto A moves on to a later member of the group and
+// is answered when the group is done - is the library's deliberate reading of "the tag is free after Rflush".)
+func concFlushGroup(maxpend int, variant int) string {
+	s := newConcSession(maxpend, false)
+	s.setup()
+	const tt, ft = 720, 721
+	flushed := map[uint16]bool{}
+	isCalled := func(cr *concReq) bool {
+		if cr == nil {
+			return false
+		}
+		s.mu.Lock()
+		defer s.mu.Unlock()
+		return cr.called
+	}
+	nth := func(n int) *concReq { // the n-th request (0-based) with tag tt
+		s.mu.Lock()
+		defer s.mu.Unlock()
+		k := 0
+		for _, cr := range s.reqInfo {
+			if cr.tag == tt {
+				if k == n {
+					return cr
+				}
+				k++
+			}
+		}
+		return nil
+	}
+	waitNth := func(n int) *concReq {
+		dl := time.Now().Add(2 * time.Second)
+		for time.Now().Before(dl) {
+			if cr := nth(n); cr != nil {
+				return cr
+			}
+			time.Sleep(30 * time.Microsecond)
+		}
+		return nil
+	}
+	s.send(statReq(tt, 0))
+	a := waitNth(0)
+	dl := time.Now().Add(2 * time.Second)
+	for !isCalled(a) && time.Now().Before(dl) {
+		time.Sleep(30 * time.Microsecond)
+	}
+	if variant == 1 {
+		s.send(statReq(tt, 0)) // B: queued behind A
+		b := waitNth(1)
+		time.Sleep(300 * time.Microsecond)
+		s.send(flushReq(ft, tt))
+		s.waitReplies(3, 2*time.Second) // the Rflush
+		s.send(statReq(tt, 0))          // C
+		c := waitNth(2)
+		time.Sleep(3 * time.Millisecond)
+		if isCalled(c) {
+			s.note("C08.shared_tag_member_started_while_older_executes")
+		}
+		if a != nil {
+			a.released <- concAction{answers: 1, payload: []byte("A")}
+		}
+		dl := time.Now().Add(time.Second)
+		for time.Now().Before(dl) {
+			for _, cr := range []*concReq{b, c} {
+				if isCalled(cr) {
+					select {
+					case cr.released <- concAction{answers: 1, payload: []byte("late")}:
+					default:
+					}
+				}
+			}
+			if len(s.conn.frames()) >= 5 {
+				break
+			}
+			time.Sleep(100 * time.Microsecond)
+		}
+		time.Sleep(2 * time.Millisecond)
+		for _, cr := range []*concReq{b, c} {
+			if isCalled(cr) {
+				select {
+				case cr.released <- concAction{answers: 1, payload: []byte("late")}:
+				default:
+				}
+			}
+		}
+		flushed[tt] = true
+	}
+	return s.finish(fmt.Sprintf("flushgroup%d", variant), flushed)
+}
+
 // kind "slowdestroy": a clunk whose FidDestroy is slow inside the implementation must not delay
 // requests with other tags
 func concSlowDestroy(maxpend int) string {
@@ -1530,6 +1639,8 @@ func modeSrvconc(tier string, args []string) {
 				jobs = append(jobs, func() string { return concGroup(mp, n) })
 			}
 			jobs = append(jobs, func() string { return concFlushWalk(mp) })
+			jobs = append(jobs, func() string { return concFlushGroup(mp, 1) })
+			jobs = append(jobs, func() string { return concVersionTag(mp) })
 			jobs = append(jobs, func() string { return concSlowWrite(mp) })
 			jobs = append(jobs, func() string { return concLateAnswer(mp) })
 			for _, fo := range []bool{false, true} {
